@@ -111,6 +111,17 @@
 (*     HklLexMax: where the whole orbit stays within 499 the result is the *)
 (*     lexicographic maximum (independent of the packing base 1000);       *)
 (*     beyond 499 the key is not injective: SymGroup_hkl500.cfg.           *)
+(*     HklKeyMax (the documented range |h| < 1000 of the key, wider than   *)
+(*     the lexicographic domain; SymGroup_wide.cfg): for every hkl with    *)
+(*     entries up to 999 whose orbit members all have DIFFERENT packed     *)
+(*     keys (KeyInjectiveOn, decided orbit by orbit) every start returns    *)
+(*     the one member with the largest key - canonical WITHIN the orbit;   *)
+(*     InOrbit and Idempotent hold for every hkl of that range, tie or not.*)
+(*     KeyFits32 (magnitude x integer width): over that range the key of   *)
+(*     every orbit member and its intermediate h*1000 + k stay inside a    *)
+(*     signed 32 bit integer, so the width of the caller's array (int32 /  *)
+(*     int64 / float64: the starting key is computed in the CALLER's type) *)
+(*     cannot matter - the harness hands every start over in each of them. *)
 (*   at "done", mode l: ListColumnwise (THE list law: the array that comes  *)
 (*     back is, column by column, the lexicographic maximum of that        *)
 (*     column's orbit - whatever the other columns are, wherever the column *)
@@ -159,7 +170,8 @@
 (* rational rotations |q|^2 R(q); contains the signed permutations and the *)
 (* Pythagorean angles 3-4-5, 5-12-13, 7-24-25), hkl box -HMax..HMax plus   *)
 (* the explicit triples BigHkls (entries up to 499: key < 2^29, HklNormKept *)
-(* < 2^31), lists of 1..ListMax columns over ListPool (ListMax = 0: none), *)
+(* < 2^31; SymGroup_wide.cfg: entries 500..999 and the powers of two in     *)
+(* between, key < 2^31, HklNormKept not evaluated there), lists of 1..ListMax columns over ListPool (ListMax = 0: none), *)
 (* MaxCalls named-group calls per behaviour, two threads with one call     *)
 (* each.  Largest intermediate (SameLattice) < 2^28 for QMax = 3.          *)
 (***************************************************************************)
@@ -206,7 +218,7 @@ vars == << seqvars, cvars >>
 
 AllNames == { "cubic", "hexagonal", "trigonal", "rhombohedralP", "tetragonal",
               "orthorhombic", "monoclinic_c", "monoclinic_a", "monoclinic_b", "triclinic" }
-ASSUME Names \subseteq AllNames /\ QMax \in 1..3 /\ HMax \in 1..4 /\ MaxCalls \in 1..3
+ASSUME Names \subseteq AllNames /\ QMax \in 0..3 /\ HMax \in 0..4 /\ MaxCalls \in 1..3
        /\ DoScan \in BOOLEAN /\ TrigonalFixed \in BOOLEAN
        /\ \A c \in BigHkls : /\ Cardinality(c) = 3
                               /\ \E h \in c : h \in 1..1999
@@ -744,6 +756,26 @@ HklLexMax == (AtDone /\ mode = "h") =>
                 LET O == OrbitOf IN
                   (\A y \in O : LexDomain(y)) => \A x \in ResultSet : \A y \in O : LexLeq(y, x)
 
+\* ---- the documented range of the key, |h| < 1000 ("Assumes |h| < hmax") ------------------------
+\* Beyond 499 the packed key is no order isomorphism any more, but on most orbits it is still INJECTIVE
+\* (decided orbit by orbit, in unbounded integers): there the scan has one strict maximum whatever the
+\* start, so the result is the member with the largest key from every start - canonical within the orbit.
+\* Orbits on which two members share a key (hexagonal (1,-3,500)) are left to InOrbit / Idempotent.
+WideDomain(h) == \A k \in 1..3 : h[k] \in -999..999
+KeyInjectiveOn(O) == \A x, y \in O : HklKey(x) = HklKey(y) => x = y
+HklKeyMax == (AtDone /\ mode = "h" /\ WideDomain(x0)) =>
+               LET O == OrbitOf IN
+                 KeyInjectiveOn(O) => /\ Cardinality(ResultSet) = 1
+                                      /\ \A x \in ResultSet : \A y \in O : HklKey(y) <= HklKey(x)
+\* magnitude x integer width: find_uniq_hkls computes the STARTING key on the caller's array, in the caller's
+\* integer type; the candidates' keys come from dot(o, hkls) in 64 bit.  Over the documented range the key
+\* (h*1000 + k)*1000 + l and its intermediate h*1000 + k of every orbit member (the hexagonal operators reach
+\* 2*999) fit a signed 32 bit integer: hk = h*1000 + k with |hk| <= 2147481 gives |hk*1000 + l| <= 2147481000 +
+\* 1998 < 2^31.  (Written with bounds BEFORE the multiplication: TLC's integers are 32 bit themselves.)
+KeyFits32 == (AtDone /\ mode = "h" /\ WideDomain(x0)) =>
+               \A y \in OrbitOf : LET hk == y[1]*1000 + y[2] IN
+                                     /\ Abs(y[1]) <= 2147 /\ Abs(hk) <= 2147481 /\ Abs(y[3]) <= 2647
+
 \* ---- the list laws (mode l) ------------------------------------------------------------------
 ResultL(k) == [j \in 1..Len(x0) |-> T3(MV(grp[res[k][j]], StartL(k)[j]))]    \* the array call k returned
 OrbH(h) == { T3(MV(grp[k], h)) : k \in 1..Len(grp) }
@@ -857,6 +889,7 @@ EmitOrbit ==
       [ kind |-> mode, name |-> name, tag |-> tag, x0 |-> x0, win |-> res, res |-> R,
         smax |-> MaxScore,
         nmax |-> Cardinality({ x \in OrbitOf : Score(x) = MaxScore }),
+        nscore |-> Cardinality({ Score(x) : x \in OrbitOf }), norbit |-> Cardinality(OrbitOf),
         ndist |-> Cardinality({ R[k] : k \in 1..Len(res) }) ]))
 
 Emit == EmitGroup /\ EmitOrbit /\ EmitList
